@@ -119,6 +119,9 @@ static u64 argval(const char *a) {
     for (int i = 0; i < n; i++) e[-n + i] = a[2 + i];
     return (u64)(e - n);
   }
+  if (pre(a, "h:")) { /* struct open_how {flags, mode, resolve} */
+    static u64 how[3]; how[0] = num(a + 2); how[1] = 0; how[2] = 0; return (u64)how;
+  }
   if (pre(a, "l:")) { /* long string: l:LEN:PREFIX -> PREFIX followed by 'z' up to LEN bytes, NUL-terminated */
     u64 n = num(a + 2); const char *q = a + 2; while (*q && *q != ':') q++; if (*q == ':') q++;
     char *e = edge_page(); if (!e) return 0; char *b = e - 14 * 4096; u64 i = 0;
